@@ -308,6 +308,9 @@ def r07_6(ctx):
     f2, outs = run_il_exec(idx, "MemLoad", lambda: {"va": mk_pure("ea"), "acc_type": AObj("MemAccessType", {"val_type": mk_vt("tm", True, Sym("W"))}, label="acc")})
     obs = " | ".join(sorted({normalise(outcome_text(o)) for o in outs}))
     ctx.check("MemLoad.il_exec", obs == "LOADW(<W>, <ea.il_read()>)", "LOADW(<W>, <ea.il_read()>)", obs, fn_where(idx, f2))
+    from .c03 import memload_typing
+
+    memload_typing(ctx)  # the node's own type is the access type, for every width and sign
     f3, outs = run_il_exec(idx, "MemStore", lambda: {"va": mk_pure("ea"), "data_var": mk_pure("data")}, method="il_write")
     obs = " | ".join(sorted({normalise(outcome_text(o)) for o in outs}))
     ctx.check("MemStore.il_write", obs == "STOREW(<ea.il_read()>, <data.il_read()>)", "STOREW(<ea.il_read()>, <data.il_read()>)", obs, fn_where(idx, f3))
@@ -541,3 +544,10 @@ def r07_11(ctx):
         ctx.check(f"register {name}{'N' if is_new else 'V'}: new-value operand (resolved through the producer)", got == [str(exp)], str(exp), str(got), fn_where(idx, fi))
     r12_8(ctx)
     init_a_cast_kind_independence(ctx)
+
+
+@rule("R07.12", "C07", "which bank / slot an operand's read names is fixed by the operand (spelling, access class), never by the order in which the nodes happen to be printed: printing one node stores nothing into another node that printing reads", min_instances=1)
+def r07_12(ctx):
+    from .c16 import r16_5
+
+    r16_5(ctx)
